@@ -194,9 +194,9 @@ impl tokio::io::AsyncWrite for Dribble {
         std::task::Poll::Ready(Ok(()))
     }
 }
-thread_local! { static DRIBBLE: std::cell::Cell<usize> = const { std::cell::Cell::new(usize::MAX) }; }
+thread_local! { pub static DRIBBLE: std::cell::Cell<usize> = const { std::cell::Cell::new(usize::MAX) }; }
 
-fn write_bytes<F: std::future::Future<Output = std::io::Result<()>>>(f: impl FnOnce(&'static mut Dribble) -> F) -> Vec<u8> {
+pub fn write_bytes<F: std::future::Future<Output = std::io::Result<()>>>(f: impl FnOnce(&'static mut Dribble) -> F) -> Vec<u8> {
     // the writers take &mut A: AsyncWrite; the sink accepts DRIBBLE bytes per call
     let buf: &'static mut Dribble = Box::leak(Box::new(Dribble { data: Vec::new(), k: DRIBBLE.with(|d| d.get()) }));
     let ptr = buf as *mut Dribble;
@@ -424,6 +424,33 @@ fn large_pdus(s: &mut Summary) {
             Err(m) => s.violation("pdu:panic", m, json!({"providers": n})),
         }
         s.evals(1);
+    }
+    // a long ASPA PDU whose stream ends early must end in an error wherever it ends - also past the first page of providers
+    for n in [1023usize, 1024, 1025, 1500, 5000] {
+        let provs: Vec<Asn> = (0..n).map(|i| Asn::from_u32(65000 + 3 * i as u32)).collect();
+        let item = Payload::aspa(Asn::from_u32(64496), pdu::ProviderAsns::try_from_iter(provs.iter().copied()).unwrap());
+        let x = pdu::Payload::new(2, 1, item.as_ref());
+        let bytes = write_bytes(|w| async move { x.write(w).await });
+        let total = bytes.len();
+        let mut cuts: Vec<usize> = vec![8, 11, 12, 4095, 4096, 4097, 4107, 4108, 4109, 4110, 4111, 4112, 8191, 8192, 8204, total - 5, total - 4, total - 1];
+        cuts.retain(|c| *c < total);
+        for cut in cuts {
+            for chunk in [4096usize, 7] {
+                let r = guarded(|| {
+                    let mut rd = Counting::new(bytes[..cut].to_vec(), chunk);
+                    let ok = matches!(block(pdu::Payload::read(&mut rd)), Ok(Ok(Some(_))));
+                    let mut rd2 = Counting::new(bytes[..cut].to_vec(), chunk);
+                    let ok2 = block(pdu::Aspa::read(&mut rd2)).is_ok();
+                    (ok, ok2, rd.zero_reads.max(rd2.zero_reads))
+                });
+                match r {
+                    Ok((false, false, z)) if z <= 2 => {}
+                    Ok((a, b, z)) => s.violation("read:accepts-broken", format!("an ASPA PDU of {total} octets ({n} providers) cut after {cut} octets: Payload::read ok = {a}, Aspa::read ok = {b}, reads after the end {z}"), json!({"providers": n, "cut": cut})),
+                    Err(m) => s.violation("pdu:panic", m, json!({"providers": n, "cut": cut})),
+                }
+                s.evals(1);
+            }
+        }
     }
     for n in (0usize..=300).chain([65_519usize, 65_520, 65_521, 300_000]) {
         let r = guarded(|| -> Result<(), String> {
